@@ -103,6 +103,30 @@ CLAIMS = {
         "undone <= forward, and every per-thread record must equal the hook-trace counts (forward, rollbacks, undone, checkpoints, silent, anti-messages) of its interval.",
    note=TB + "timing and memory metrics are checked for presence only; counter accounting is checked against traces, not proved.",
    tech="Coq proof (codec round-trip) + decoding of real output with the extracted decoder + per-interval counter comparison with hook traces"),
+ "C12": dict(cat="proof", ref="DESIGN.md §5 C12",
+   text="Theorems (Properties_C12.v, axiom-free, any block exponent and tree height): malloc on the buddy tree succeeds iff the root admits the class, keeps the tree well formed, "
+        "allocates exactly one aligned in-bounds previously-free range of leaves and changes no other leaf; larger requests fail cleanly; free is the exact inverse of the malloc that "
+        "produced the block (the previous tree comes back: space reusable, buddies coalesce); a write leaves every granule outside the block unchanged. Tie: real rs_malloc/rs_calloc/rs_realloc/"
+        "rs_free/checkpoint/restore/fossil driven by generated sequences (sizes 0,1,63..65,...,65535..65537,huge, wrapping calloc products) — every answer (arena, offset, size bookkeeping), "
+        "periodic digests of every longest[] array and block contents compared with the extracted model; shadow-allocator laws (in-bounds, aligned, disjoint, content, clean failures, zeroed calloc) "
+        "evaluated on the implementation's own answers.",
+   note=TB + "arena insertion position (malloc address order) is an input of the model; content observed per 64-byte granule; multi-arena layer and size arithmetic tied by correspondence, not proved.",
+   tech="Coq proof (structural induction on the buddy tree; free = inverse of malloc) + differential correspondence of the real allocator with the extracted model + shadow-allocator oracle"),
+ "C05": dict(cat="proof", ref="DESIGN.md §5 C05",
+   text="Theorems (Properties_C05.v, axiom-free): restoring an arena from a checkpoint yields the checkpointed tree (same live blocks; later allocations gone) and the checkpointed content of "
+        "every granule of every block allocated at the checkpoint, whatever happened to the arena since; a restore to index ref uses the newest checkpoint not after ref, returns its reference, "
+        "drops every later checkpoint. Tie: allocator driver with checkpoints at arbitrary indices and restores at/between/just after checkpoints incl. arenas created after the checkpoint; "
+        "LP level: multi-thread runs (intervals 1..7/auto) and the LP-level driver (the harness plays the network: holds messages, returns them late — thousands of rollbacks to indices between "
+        "checkpoints, silent re-executions) must end with the reference hash-chain digests (state, live buffers, RNG stream).",
+   note=TB + "silent re-execution / send suppression / RNG-in-LP-memory are tied by runs, not proved at LP level.",
+   tech="Coq proof (checkpoint/restore exactness on the arena model, log selection) + differential correspondence + LP-level rollback storms against the reference executor"),
+ "C13": dict(cat="proof", ref="DESIGN.md §5 C13",
+   text="Theorems (Properties_C13.v, axiom-free): fossil collection keeps the newest checkpoint not after the target and every later one, re-bases their references so the kept log starts at 0, "
+        "changes neither arenas nor size bookkeeping, and afterwards a restore to any index finds a checkpoint. Tie: allocator driver calling the real model_allocator_fossil_lp_collect/_checkpoint_restore "
+        "with swept distances; LP-level driver and multi-thread runs with GVT periods down to 0: every entry released by a collection must lie strictly below the GVT it was given, and runs with "
+        "rollbacks after fossil collections must still produce the reference digests.",
+   note=TB + "that the runtime passes the index of the last committed event is checked on traces, not proved.",
+   tech="Coq proof (log re-basing invariants) + differential correspondence + trace oracle (released entries below GVT) + rollback-after-fossil runs"),
 }
 
 PENDING_REASON = "check not built yet in this session (work in progress, see DESIGN.md §8 order of work); not claimed until its theorem and correspondence run"
